@@ -1,7 +1,9 @@
 (** Proofs about Model/JobOrder.v: container/heap is a proved component
     (sift-up / sift-down restore the heap invariant, Pop returns a least element),
-    the comparator chain is a strict total order, leaf queues are only touched by
-    heap pushes and pops, and the decision-level statement of C16. *)
+    indexOfLast designates a maximum of the heap, so a bounded PriorityQueue holds
+    the [depth] best of everything pushed; the comparator chain is a strict total
+    order; leaf queues are only touched by heap pushes and pops; and the
+    decision-level statement of C16 for every queue depth. *)
 From Coq Require Import List ZArith Bool Lia ZifyBool ZifyNat Permutation Sorted.
 From KaiV Require Import Model.JobOrder Model.JobOrderSpec.
 Import ListNotations.
